@@ -108,7 +108,14 @@ pub fn judge_case(c: &Case) -> Obs {
             return obs;
         }
     };
-    let text = refasm::render(&program, Layout::CANON).text;
+    // half of the sources are written plainly, half with comments (ASCII and multi-byte), blank
+    // lines, mixed case and separators, and statements that go on on the next line
+    let lh = hash_of(&(c.dest, c.fault, c.name, c.fail_at, c.back_total, c.default_dest));
+    let layout = if lh % 2 == 0 || c.bulk.is_some() { Layout::CANON } else { Layout { seed: lh >> 8, style: 2 + ((lh >> 1) % 2) as u8, end: false } };
+    if layout.style != 0 {
+        obs.label("source-with-comments-and-varied-layout");
+    }
+    let text = refasm::render(&program, layout).text;
     obs.key = hash_of(&(&text, c.dest, c.fault, c.default_dest, c.name));
     obs.nontrivial = c.fail_at.is_some() || c.back_total.is_some() || c.fault != Fault::None;
     obs.show = Some(format!("fail_at={:?} dest={:?} fault={:?} default_dest={} stack={}\n{}", c.fail_at, c.dest, c.fault, c.default_dest, built.stack, if text.len() > 4000 { format!("{} ...\n[bulk program {:?}: {} lines]", text.chars().take(800).collect::<String>(), c.bulk, text.lines().count()) } else { text.clone() }));
@@ -374,6 +381,7 @@ impl Prop for C08 {
                 judge_one(ctx, rep, &case, &mut |c| judge_case(c));
             }
         }
+        rep.notes.push("half of the sources are rendered with comments (ASCII and multi-byte), blank lines, mixed case and statements across lines".into());
         rep.exhaustive.push("per generated program: every emission position x 6 destination states, plus 4 destination faults x 3 assembly outcomes".into());
     }
     fn replay(&self, _ctx: &Ctx, case: &Value) -> Obs {
